@@ -283,6 +283,12 @@ pred covered(changeAbleShards, active) = forall h in active ::
 pred onlyRemoves(changeAbleShards) = forall s in changeAbleShards :: forall h in s.scraping :: h in old(keys(s.scraping))
 pred reportedIsPlanned(shards) = forall s in shards :: s.changeAble ==> keys(s.scraping) == s.gReported
 
+// C05 / C06: an in-transfer mark is taken back only for an orphaned transfer - no other in-sync shard holds the target, so
+// nobody would ever complete the move (the destination lost it or never got it); a transfer with a live destination is never cancelled
+on store target.ScrapeStatus.TargetState(o, v) in Coordinator.gcTargets
+   assert[C05,C06] @reset_only_for_an_orphaned_transfer v == "" && o == tar && o.TargetState == "in_transfer"
+        && (forall x in changeAbleShards :: (x != s ==> !(h in x.scraping)))
+
 contract Coordinator.gcTargets
   requires wfOpt(c) && wfAll() && live(changeAbleShards) && allChangeAble(changeAbleShards) && reportedIsPlanned(changeAbleShards)
   ensures[C01] @coverage covered(changeAbleShards, active)
@@ -291,7 +297,7 @@ contract Coordinator.gcTargets
   ensures unownedMapsKept()
   ensures othersKeepMap(changeAbleShards)
   ensures[C01] @only_discovered_stay forall s in changeAbleShards :: forall h in s.scraping :: h in active
-  modifies mapof(shardInfo.scraping)
+  modifies mapof(shardInfo.scraping), target.ScrapeStatus.TargetState
   loop 1 invariant[C01] @coverage covered(changeAbleShards, active)
   loop 1 invariant[C01] @only_removes onlyRemoves(changeAbleShards)
   loop 1 invariant wfAll()
@@ -311,6 +317,7 @@ contract Coordinator.gcTargets
   loop 3 invariant wfAll()
   loop 3 invariant unownedMapsKept()
   loop 3 invariant othersKeepMap(changeAbleShards)
+  loop 3 invariant !heldByOther ==> (forall j in 0..idx3 :: (changeAbleShards[j] != s ==> !(h in changeAbleShards[j].scraping)))
 
 // ---------- collecting the reports (C08) ----------
 contract field Coordinator.getConfig()
